@@ -14,7 +14,7 @@ Extraction "extracted/ssz_model.ml"
   params wfbb le_bytes le_val
   encode_length decode_offset read_offset sanitize_offset union_selector_new split_union_bytes
   enc_run builder_build decode_all register_all finalize builder_new
-  e_is_fixed d_is_fixed e_fixed_len d_fixed_len has_ty val_cmp collect_entries rt_type canon_type
+  e_is_fixed d_is_fixed e_fixed_len d_fixed_len has_ty val_cmp collect_entries rt_type canon_type wf_type key_type
   append enc as_bytes ssz_encode bytes_len dec decode_list_var_full dec_seq
   spec_enc valid_b is_variable
   bytes_for_bit_len bf_set bf_get from_raw_bytes highest_set_bit is_zero num_set_bits bf_iter
